@@ -7,7 +7,8 @@ Tie: the real server (`garden nrepl --port 0`, hook H4 delay points) is driven o
 clients; every observed per-connection trace must be produced by some run of the model
 (driver op `nrepl_accept`, a search used only to validate the model).
 Direct oracle on the raw traces (no model): per id exactly one `done`, it is the last message with
-that id, the `out` chunks before it concatenate to the script's known output, statuses and values as
+that id, the `out` / `err` payloads received before it concatenate byte-for-byte (length included) to the
+script's known output (up to 1 MiB per eval, multi-byte text), statuses and values as
 expected (same variable name in two sessions evaluated concurrently = isolation).
 """
 from . import nrepl_client as N
@@ -24,6 +25,10 @@ CONFIGS = [
     ("idle_interrupt", {}), ("loop_interrupt", {}), ("loop_interrupt", {"flusher_take_send": 150}),
     ("interrupt_queued", {}), ("interrupt_queued", {"before_done": 80}),
     ("close_loop", {}), ("close_loop", {"drain_take_send": 80}),
+    # large outputs (4 KiB .. 1 MiB, sizes around 64 KiB / 128 KiB / 256 KiB and their neighbours, ASCII and
+    # multi-byte units, stdout and stderr, single print and fast print loops): everything, or all but what
+    # few flusher passes took, is left to the final drain
+    ("big_output", {}), ("big_output", {"flusher_take_send": 400}), ("big_output", {"before_stop": 150}),
 ]
 
 
